@@ -210,6 +210,11 @@ class Runtime(object):
         ev = tr['events']
         f = self.fspec[fid]
         role = f['role']
+        if '__extra__' in args:
+            extra = args.pop('__extra__')
+            tr['varkw_functions'] = tr.get('varkw_functions', 0) + 1
+            if extra:
+                tr.setdefault('undeclared', []).append([fid, sorted(extra)])
         ev.append(['enter', fid, {p: self.symbolize(p, v, tr) for p, v in args.items()}])
         for v in args.values():
             if type(v) is list and not any(v is x for x in tr.setdefault('lists', [])):
@@ -331,21 +336,29 @@ def make_callable(rt, f, role, provides=()):
         if k in ('def', 'kwdef', 'posdef'):
             D[(fid, p)] = rt.default(fid, p)
     names = [p for p, _ in params]
-    call = '__spy__(__FID__, {%s})' % ', '.join('%r: %s' % (n, n) for n in names)
+    varkw = bool(f.get('varkw'))
+
+    def _sig(params, **k):
+        # f['varkw']: the function also takes **__extra__ - it declares no name by that, and must never find anything in it
+        sig, nm = signature_src(params, **k)
+        if varkw:
+            sig = (sig + ', ' if sig else '') + '**__extra__'
+        return sig, nm
+    call = '__spy__(__FID__, {%s})' % ', '.join(['%r: %s' % (n, n) for n in names] + (["'__extra__': __extra__"] if varkw else []))
     ns = {'__spy__': rt.invoke, '__D__': D, '__FID__': fid}
     safe = fid.replace('.', '_').replace('-', '_')
     if form == 'lambda':
-        sig, _ = signature_src(params)
+        sig, _ = _sig(params)
         src = 'fn = lambda %s: %s\n' % (sig, call)
         exec(src, ns)
         return ns['fn']
     if form == 'function':
-        sig, _ = signature_src(params)
+        sig, _ = _sig(params)
         exec('def %s(%s):\n    return %s\nfn = %s\n' % (safe, sig, call, safe), ns)
         return ns['fn']
     if form == 'decorated':
         from clastic.decorators import clastic_decorator
-        sig, _ = signature_src(params)
+        sig, _ = _sig(params)
         exec('def %s(%s):\n    return %s\nfn = %s\n' % (safe, sig, call, safe), ns)
 
         @clastic_decorator
@@ -360,11 +373,11 @@ def make_callable(rt, f, role, provides=()):
     # 'falsy': the instance behind the method / the callable object is an empty container (bool(obj) is False)
     falsy = '    def __len__(self):\n        return 0\n' if f.get('falsy') else ''
     if form == 'method':
-        sig, _ = signature_src(params, with_self=True)
+        sig, _ = _sig(params, with_self=True)
         exec('class K(object):\n%s    def %s(%s):\n        return %s\nfn = K().%s\n' % (falsy, safe, sig, call, safe), ns)
         return ns['fn']
     if form == 'callable_object':
-        sig, _ = signature_src(params, with_self=True)
+        sig, _ = _sig(params, with_self=True)
         descr = '    def __get__(self, obj, objtype=None):\n        return self\n' if f.get('descriptor') else ''
         exec('class K(object):\n%s%s    def __call__(%s):\n        return %s\nfn = K()\n' % (falsy, descr, sig, call), ns)
         if f.get('wrapped'):
@@ -377,11 +390,11 @@ def make_callable(rt, f, role, provides=()):
             functools.update_wrapper(ns['fn'], zz_wrapped_function)
         return ns['fn']
     if form == 'staticmethod':
-        sig, _ = signature_src(params)
+        sig, _ = _sig(params)
         exec('class K(object):\n    @staticmethod\n    def %s(%s):\n        return %s\nfn = K.%s\n' % (safe, sig, call, safe), ns)
         return ns['fn']
     if form == 'classmethod':
-        sig, _ = signature_src(params, with_self=True)
+        sig, _ = _sig(params, with_self=True)
         sig = sig.replace('self', 'cls', 1)
         exec('class K(object):\n    @classmethod\n    def %s(%s):\n        return %s\nfn = K.%s\n' % (safe, sig, call, safe), ns)
         return ns['fn']
@@ -549,7 +562,14 @@ def build(cfg, error_handler_factory=None, slash_mode=None):
             if inner is None:
                 routes = sibling_routes + [make_decoy(d) for d in (route.get('decoys') or [])] + [r]
             else:
-                routes = [(level_prefix(cfg['levels'][k], k), inner)]
+                how = cfg['levels'][k].get('embed')
+                if how:
+                    # the embedding spelled as a SubApplication object, with or without the option that keeps the embedded
+                    # routes' own slash mode (which is about slashes, nothing else)
+                    from clastic import SubApplication
+                    routes = [SubApplication(level_prefix(cfg['levels'][k], k), inner, inherit_slashes=(how != 'subapp-own-slashes'))]
+                else:
+                    routes = [(level_prefix(cfg['levels'][k], k), inner)]
             if cfg.get('build_via_add'):
                 # "...or adding a route to one": the same dependency check must happen in add()
                 app_k = Application([], resources=res, middlewares=mws, error_handler=ehf(), **akw)
@@ -560,6 +580,11 @@ def build(cfg, error_handler_factory=None, slash_mode=None):
                 inner = Application(routes, resources=res, middlewares=mws, error_handler=ehf(), **akw)
             out.apps.insert(0, inner)
         out.app = inner
+        if cfg.get('rebound_elsewhere'):
+            # the innermost application is *also* mounted in an unrelated application built afterwards (and never asked):
+            # who serves a request is decided by who is asked, not by who bound the routes last
+            out.stage = 'rebinding-elsewhere'
+            out.elsewhere = Application([('/elsewhere/', out.apps[-1])])
         out.stage = 'done'
     except Exception as e:
         out.error = e
